@@ -924,10 +924,21 @@ func (x *Exec) binop(st *State, fr *Frame, in *ssa.BinOp) Val {
 			}
 			return TV{SInt, tSub(at.E, tMulC(numLit(d), q))}
 		}
-		res := st.fresh("quo", SInt)
-		x.note("division by non-constant modelled as unknown in range")
-		st.assume(r.inRange(res))
-		return TV{SInt, res}
+		if !r.signed {
+			if in.Op == token.QUO {
+				return TV{SInt, app("div", at.E, bt.E)}
+			}
+			return TV{SInt, app("mod", at.E, bt.E)}
+		}
+		// signed: Go truncates toward zero
+		abs := func(t string) string { return tIte(tCmp(">=", t, "0"), t, tNeg(t)) }
+		qa := app("div", abs(at.E), abs(bt.E))
+		sameSign := tEq(tCmp(">=", at.E, "0"), tCmp(">", bt.E, "0"))
+		q := tIte(sameSign, qa, tNeg(qa))
+		if in.Op == token.QUO {
+			return TV{SInt, r.wrap1(q)}
+		}
+		return TV{SInt, tSub(at.E, app("*", bt.E, q))}
 	case token.SHL:
 		if k, ok := isNum(bt.E); ok && k.IsInt64() && k.Int64() < 64 {
 			return TV{SInt, r.wrap(tMulC(at.E, numLit(pow2(uint(k.Int64())))))}
@@ -1247,24 +1258,21 @@ func (x *Exec) loopHavoc(st *State, fr *Frame, lp *Loop) {
 			case *ssa.Store:
 				markPtr(i.Addr)
 			case *ssa.Call:
-				ghostTouched = true
 				eff := x.callEffects(fr, i.Common())
-				if eff.allHeaps {
-					havocAllHeaps = true
-				}
-				for s := range eff.heaps {
-					heapSet[s] = true
-				}
 				for _, a := range eff.ptrArgs {
 					markPtr(a)
 				}
 				if eff.allCells {
 					allCells = true
 				}
-			case *ssa.Defer, *ssa.RunDefers:
-				havocAllHeaps = true
 			}
 		}
+	}
+	f := x.loopEffects(lp)
+	ghostTouched = f.ghost || f.unknown
+	havocAllHeaps = f.unknown
+	for s := range f.old {
+		heapSet[s] = true
 	}
 	if allCells {
 		for c := range st.cells {
@@ -1286,11 +1294,27 @@ func (x *Exec) loopHavoc(st *State, fr *Frame, lp *Loop) {
 			heapSet[strings.TrimPrefix(h, "H_")] = true
 		}
 	}
+	topAtEntry := st.top
+	for s := range f.fresh {
+		if heapSet[s] {
+			continue
+		}
+		// only objects allocated inside the loop are written: older objects keep their value
+		oldH := st.heap(s)
+		delete(st.heaps, x.w.Heap(s))
+		newH := st.heap(s)
+		x.freshN++
+		r := fmt.Sprintf("q_r_%d", x.freshN)
+		st.assume(fmt.Sprintf("(forall ((%s Int)) (! (=> (< %s %s) (= (select %s %s) (select %s %s))) :pattern ((select %s %s))))", r, r, topAtEntry, newH, r, oldH, r, newH, r))
+	}
 	for s := range heapSet {
+		if strings.HasPrefix(s, "T_") && x.w.DTByName(s) == nil {
+			continue
+		}
 		delete(st.heaps, x.w.Heap(s))
 		st.heap(s)
 	}
-	if ghostTouched || havocAllHeaps {
+	if ghostTouched {
 		for k, v := range st.ghost {
 			if strings.HasPrefix(k, "rem:") || strings.HasPrefix(k, "out:") {
 				if tv, ok := v.(TV); ok {
@@ -1302,6 +1326,8 @@ func (x *Exec) loopHavoc(st *State, fr *Frame, lp *Loop) {
 				}
 			}
 		}
+	}
+	if len(f.fresh) > 0 || len(f.old) > 0 || f.unknown {
 		st.advanceTop()
 	}
 }
